@@ -35,6 +35,7 @@ Simulate *Simulate8008::init(Memory *memory)
 void Simulate8008::reset()
 {
   memset(reg, 0, sizeof(reg));
+  memset(stack, 0, sizeof(stack));
   memset(&flags, 0, sizeof(flags));
 
   pc = org;
